@@ -207,8 +207,7 @@ def run_utils(ctx):
             mn = r.choice([0, 1, 2, 3])
             v = rand_vec(r, n, sp)
             ops.append('C11 check_array1 %d %s' % (mn, enc_vec(v)))
-            cont = r.choice(['nd', 'list'])
-            arr = np.array(v, dtype=float) if cont == 'nd' else list(v)
+            arr = to_container(v, r.choice(['nd', 'list', 'object', 'str', 'strlist', 'none']))
             thunks.append(lambda arr=arr, mn=mn: utils.check_array(arr, ndim=1, min_samples=mn, verbose=False))
             sigs.append(dict(k=kind, n=n, mn=mn, special=sum(1 for x in v if not math.isfinite(x))))
         elif kind == 'a2':
@@ -218,7 +217,7 @@ def run_utils(ctx):
             nf = r.choice([None, 1, 2, 3])
             M = [rand_vec(r, w, sp) for _ in range(n)]
             ops.append('C11 check_array2 %s %d %s' % ('-' if nf is None else nf, mn, enc_mat(M)))
-            arr = np.array(M, dtype=float) if r.random() < 0.5 else [list(x) for x in M]
+            arr = to_container(M, r.choice(['nd', 'list', 'object', 'str', 'strlist', 'none']), True)
             thunks.append(lambda arr=arr, mn=mn, nf=nf: utils.check_array(arr, force_2d=True, n_feats=nf, min_samples=mn, verbose=False))
             sigs.append(dict(k=kind, n=n, w=w, mn=mn, nf=nf, special=sum(1 for row in M for x in row if not math.isfinite(x))))
         elif kind == 'len':
@@ -241,7 +240,7 @@ def run_utils(ctx):
                 v[r.randrange(n)] = r.choice(lits + [float(lv), float(np.nextafter(lv, INF)), float(np.nextafter(0, -INF))])
             ops.append('C11 check_y %s %d %d %s' % (ln, lv, mn, enc_vec(v)))
             link, dist = _mk_link(pygam, ln, lv)
-            arr = np.array(v, dtype=float) if r.random() < 0.5 else list(v)
+            arr = to_container(v, r.choice(['nd', 'list', 'object', 'str', 'strlist', 'none']))
             thunks.append(lambda arr=arr, link=link, dist=dist, mn=mn: utils.check_y(arr, link, dist, min_samples=mn, verbose=False))
             sigs.append(dict(k=kind, link=ln, lv=lv, n=n, mn=mn, v=[repr(x) for x in v]))
         else:
@@ -264,7 +263,7 @@ def run_utils(ctx):
             else:
                 fit_s, kw = '-', {}
             ops.append('C11 check_X %s %d %s' % (fit_s, mn, enc_mat(M)))
-            arr = np.array(M, dtype=float) if r.random() < 0.5 else [list(x) for x in M]
+            arr = to_container(M, r.choice(['nd', 'list', 'object', 'str', 'strlist', 'none']), True)
             thunks.append(lambda arr=arr, kw=kw, mn=mn: utils.check_X(arr, min_samples=mn, verbose=False, **kw))
             sigs.append(dict(k=kind, n=n, w=w, mn=mn, fit=fit_s, M=[[repr(x) for x in row] for row in M]))
     outs = ctx.driver.run(ops)
@@ -383,6 +382,21 @@ def to_container(v, cont, two_d=False):
         return None
     if cont == 'list':
         return [list(r) for r in v] if two_d else list(v)
+    # containers that only become numbers through check_array's documented cast (`array.astype('float')`)
+    if cont == 'object':
+        return np.array(v, dtype=float).astype(object)
+    if cont == 'none':       # nested list in which NaN is spelled None
+        nn = lambda x: None if x != x else x  # noqa
+        return [[nn(x) for x in r] for r in v] if two_d else [nn(x) for x in v]
+    if cont == 'str':        # ndarray of numeric strings ('0.5', 'nan', 'inf', '-inf')
+        return np.array([[repr(float(x)) for x in r] for r in v] if two_d else [repr(float(x)) for x in v], dtype=str).reshape(
+            (len(v), len(v[0]) if len(v) else 0) if two_d else (len(v),))
+    if cont == 'strlist':
+        return [[repr(float(x)) for x in r] for r in v] if two_d else [repr(float(x)) for x in v]
+    if cont == 'pandas-object':
+        import pandas as pd
+        a = np.array(v, dtype=float).astype(object)
+        return pd.DataFrame(a) if two_d else pd.Series(a)
     if cont == 'f32':
         return np.array(v, dtype=np.float32)
     if cont == 'pandas':
@@ -395,12 +409,18 @@ def to_container(v, cont, two_d=False):
     return np.array(v, dtype=float)
 
 
-def do_call(gam, entry, A, cont):
-    X = to_container(A['X'], cont, True)
-    y = to_container(A.get('y'), cont)
-    w = to_container(A.get('weights'), cont)
-    e = to_container(A.get('exposure'), cont)
-    sx = to_container(A.get('sample_at_X'), cont, True)
+CAST_CONTAINERS = ('object', 'none', 'str', 'strlist', 'pandas-object')
+
+
+def do_call(gam, entry, A, cont, cont_arg=None):
+    # an exotic container is used for the corrupted argument only (for every argument when nothing is corrupted)
+    def cf(name):
+        return cont if (cont not in CAST_CONTAINERS or cont_arg is None or cont_arg == name) else 'nd'
+    X = to_container(A['X'], cf('X'), True)
+    y = to_container(A.get('y'), cf('y'))
+    w = to_container(A.get('weights'), cf('weights'))
+    e = to_container(A.get('exposure'), cf('exposure'))
+    sx = to_container(A.get('sample_at_X'), cf('sample_at_X'), True)
     if entry == 'fit':
         return gam.fit(X, y, weights=w)
     if entry == 'poisson_fit':
@@ -622,20 +642,23 @@ def build_states(cfg, prog, Xtr, ytr, etr, rng):
             g.fit(X, y)
         # a model whose parameters have been validated by a fit that was rejected (no coef_)
         bad = None
-        for attempt in ('nan-y', 'short-y', 'no-rows'):
+        # (a NaN in X is found by GAM.fit after `_validate_params`, for every class; the link is an object afterwards)
+        for attempt in ('nan-X', 'nan-y', 'short-y'):
             b = mk()
             try:
-                if attempt == 'nan-y':
+                if attempt == 'nan-X':
+                    Xbad = X.copy()
+                    Xbad[0, 0] = np.nan
+                    b.fit(Xbad, y)
+                elif attempt == 'nan-y':
                     ybad = y.copy()
                     ybad[0] = np.nan
                     b.fit(X, ybad)
-                elif attempt == 'short-y':
-                    b.fit(X, y[:-1])
                 else:
-                    b.fit(X[:0], y[:0])
+                    b.fit(X, y[:-1])
             except Exception:  # noqa
                 pass
-            if not b._is_fitted:
+            if not b._is_fitted and not isinstance(b.link, str):
                 bad = b
                 break
         if bad is None:
@@ -742,10 +765,26 @@ def entry_cases(ctx, cfgs, progs, tier, only=None):
                                 b['sample_at_X'] = [list(r) for r in Xc[: max(2, n // 2)]]
                             md = mode if (xi == 0 or xv.get('pre')) else 'one'
                             rc = ctx.subrng('entry', cfg.name, pname, entry, state, vi, sorted(xv.items()))
-                            for (arg, kind, pos, A) in corruptions(entry, args, b, prog, cfg, state, rc, md):
+                            rr = {}
+                            gen = list(corruptions(entry, args, b, prog, cfg, state, rc, md))
+                            # clean arguments in containers that need check_array's cast must be accepted like float arrays
+                            if xi == 0 and (vi == 0 or state != 'fitted'):
+                                gen += [(None, 'valid', c_, dict(b)) for c_ in ('object', 'str', 'strlist')]
+                            for (arg, kind, pos, A) in gen:
                                 if md == 'one' and kind in ('cat_edge', 'cat_gap', 'ragged', 'f32over', 'empty') and rc.random() < 0.5:
                                     continue
                                 cont = rc.choice(['nd', 'nd', 'list'] + (['f32', 'pandas', 'col', 'fortran'] if thorough else []))
+                                if kind in ('nan', 'inf', '-inf'):
+                                    # every (argument, kind) meets the cast containers: round robin over the sampled positions
+                                    cyc = ['object', 'nd', 'str', 'none' if kind == 'nan' else 'strlist', 'list'] + (['pandas-object'] if thorough else [])
+                                    k_ = rr.get((arg, kind), rc.randrange(3) if md == 'one' else 0)
+                                    rr[(arg, kind)] = k_ + 1
+                                    if md == 'one' or k_ % 2 == 0 or k_ < len(cyc):
+                                        cont = cyc[k_ % len(cyc)]
+                                elif kind in ('f32over', 'ydomain', 'cat_out', 'wide', 'short', 'len1', 'prodover') and rc.random() < 0.3:
+                                    cont = rc.choice(['object', 'str', 'strlist'])
+                                if kind == 'valid' and pos in CAST_CONTAINERS:
+                                    cont, pos = pos, None
                                 if kind == 'ragged':
                                     cont = 'list'
                                 if cont == 'f32' and kind in ('f32over', 'cat_out', 'cat_edge', 'ydomain', 'yboundary'):
@@ -808,7 +847,7 @@ def exec_case(case, states):
                 conv = False
         np.random.seed(abs(hash(tuple(str(x) for x in case['key'][:9]))) % (2 ** 32) if False else _stable_seed(case['key']))
         try:
-            do_call(gam, entry, A, case['cont'])
+            do_call(gam, entry, A, case['cont'], case['arg'])
             err = None
         except Exception as e:  # noqa
             err = e
